@@ -14,7 +14,8 @@
 (*                  sub-header byte regions and numeric fields             *)
 (*  Mutants(b)      field-aware corruptions: every truncation, every       *)
 (*                  header byte replaced by boundary values, every numeric *)
-(*                  field replaced by {0,1,n-1,n+1,2^31-1,2^32-1,..},      *)
+(*                  field replaced by {0,1,n-1,n+1,n+100,2^31-1,2^31,      *)
+(*                  2^32-1,2^32,2^63-1,2^63,2^64-100,2^64-1},              *)
 (*                  chunks dropped / duplicated / swapped / EOF moved      *)
 (*                                                                         *)
 (* Theorems evaluated by TLC for every generated file:                     *)
@@ -221,13 +222,14 @@ ByteValues(orig) == ({0, 1, 127, 128, 255, orig + 1, orig - 1} \cap (0 .. 255)) 
 FF(n) == [i \in 1 .. n |-> 255]
 NumValues(b, f) ==
   LET cur == IF f.n = 1 THEN b[f.o] ELSE IF f.n = 2 THEN U16(b, f.o) ELSE IF f.n = 4 THEN U32(b, f.o) ELSE U64(b, f.o)
-      small == {0, 1} \cup (IF cur = Huge THEN {} ELSE {cur + 1} \cup (IF cur > 0 THEN {cur - 1} ELSE {}))
+      small == {0, 1} \cup (IF cur = Huge THEN {} ELSE {cur + 1, cur + 100} \cup (IF cur > 0 THEN {cur - 1} ELSE {}))
       fits(v) == f.n >= 4 \/ (f.n = 1 /\ v <= 255) \/ (f.n = 2 /\ v <= 65535)
       consts == CASE f.n = 1 -> {<<127>>, <<128>>, <<255>>}
                   [] f.n = 2 -> {<<255, 127>>, <<255, 255>>, <<0, 1>>}
                   [] f.n = 4 -> {<<255, 255, 255, 127>>, <<0, 0, 0, 128>>, FF(4), <<0, 1, 0, 0>>}
-                  [] f.n = 8 -> {<<255, 255, 255, 127, 0, 0, 0, 0>>, <<255, 255, 255, 255, 0, 0, 0, 0>>, <<0, 0, 0, 0, 1, 0, 0, 0>>,
-                                 <<255, 255, 255, 255, 255, 255, 255, 127>>, FF(8)}
+                  [] f.n = 8 -> {<<255, 255, 255, 127, 0, 0, 0, 0>>, <<0, 0, 0, 128, 0, 0, 0, 0>>, <<255, 255, 255, 255, 0, 0, 0, 0>>,
+                                 <<0, 0, 0, 0, 1, 0, 0, 0>>, <<255, 255, 255, 255, 255, 255, 255, 127>>,
+                                 <<0, 0, 0, 0, 0, 0, 0, 128>>, <<156, 255, 255, 255, 255, 255, 255, 255>>, FF(8)}
   IN ({LE(v, f.n) : v \in {x \in small : fits(x)}} \cup consts) \ {Slice(b, f.o, f.n)}
 
 Mutants(b) ==
